@@ -83,6 +83,14 @@ def err_handling(body, call, _fate=None):
         cb = body.unit.body(cp) if cp else None
         if cb is not None and arm_reaches_call(cb, 0, LOG_CALL):
             return 'LOGGED', 'by %s' % cp
+    # `unwrap_or_else(|e| ..)` / `or_else(|e| ..)`: the closure is the Err arm; it did not log (checked above) - does it hand the error on?
+    for c, al in getattr(fate, 'handler_closures', []):
+        cp = body.unit.closure_of_type(body.local_ty(al))
+        cb = body.unit.body(cp) if cp else None
+        if cb is not None and 'Err' in return_variants_from(cb, 0):
+            return 'ERR-RETURNED', 'by %s' % cp
+        if not (k - {'MATCHED'}):
+            return 'HANDLED-ARM', 'the closure given to %s neither logs nor returns the error' % c.path.rsplit('::', 1)[-1]
     if 'PANICS' in k:
         return 'PANICS', '; '.join(fate.notes)
     if 'DISCARDED' in k:
